@@ -1,5 +1,8 @@
 import SFV.Model.PhaseSpace
 import Mathlib.Tactic.Ring
+import Mathlib.Algebra.BigOperators.Group.Finset.Basic
+import Mathlib.Algebra.BigOperators.Group.Finset.Piecewise
+import Mathlib.Algebra.BigOperators.Ring.Finset
 import Mathlib.Algebra.Ring.Defs
 
 /-! Lemmas for K3: every entrywise update of the Gaussian simulator refines the congruence
@@ -607,5 +610,90 @@ theorem fromCov_local (st : GS K) (quarter half : K) (modes : List Nat)
   refine ⟨fun i j hi hj => ?_, fun i hi => ?_⟩
   · simp [fromCov, posIn_none hi, foldl_loss_N, foldl_loss_M, hi, hj]
   · simp [fromCov, posIn_none hi, foldl_loss_mean, hi]
+
+/-! ### `apply_u` / `GaussianBackend.passive` -/
+
+theorem csum_re (n : Nat) (f : Nat → Cx K) : (csum n f).re = ∑ k ∈ Finset.range n, (f k).re := by
+  induction n with
+  | zero => simp [csum]
+  | succ m ih => simp [csum, ih, Finset.sum_range_succ]
+
+theorem csum_im (n : Nat) (f : Nat → Cx K) : (csum n f).im = ∑ k ∈ Finset.range n, (f k).im := by
+  induction n with
+  | zero => simp [csum]
+  | succ m ih => simp [csum, ih, Finset.sum_range_succ]
+
+theorem csum_congr {n : Nat} {f g : Nat → Cx K} (h : ∀ k, k < n → f k = g k) : csum n f = csum n g := by
+  apply Cx.ext'
+  · rw [csum_re, csum_re]; exact Finset.sum_congr rfl fun k hk => by rw [h k (Finset.mem_range.mp hk)]
+  · rw [csum_im, csum_im]; exact Finset.sum_congr rfl fun k hk => by rw [h k (Finset.mem_range.mp hk)]
+
+theorem csum_single {n : Nat} (f : Nat → Cx K) {i : Nat} (hi : i < n) (h : ∀ k, k < n → k ≠ i → f k = 0) :
+    csum n f = f i := by
+  apply Cx.ext'
+  · rw [csum_re, Finset.sum_eq_single_of_mem i (Finset.mem_range.mpr hi)]
+    intro k hk hne; rw [h k (Finset.mem_range.mp hk) hne]; rfl
+  · rw [csum_im, Finset.sum_eq_single_of_mem i (Finset.mem_range.mpr hi)]
+    intro k hk hne; rw [h k (Finset.mem_range.mp hk) hne]; rfl
+
+theorem csum_zero {n : Nat} (f : Nat → Cx K) (h : ∀ k, k < n → f k = 0) : csum n f = 0 := by
+  apply Cx.ext'
+  · rw [csum_re]; exact Finset.sum_eq_zero fun k hk => by rw [h k (Finset.mem_range.mp hk)]; rfl
+  · rw [csum_im]; exact Finset.sum_eq_zero fun k hk => by rw [h k (Finset.mem_range.mp hk)]; rfl
+
+/-- a row of `T_expand` belonging to a mode outside the list is a unit row -/
+theorem expandT_spectator (modes : List Nat) (T : Nat → Nat → Cx K) {i : Nat} (hi : ¬ i ∈ modes) (k : Nat) :
+    expandT modes T i k = if i = k then ofK 1 else 0 := by
+  unfold expandT
+  rw [posIn_none hi]
+  cases hk : posIn modes k with
+  | none => rfl
+  | some b =>
+    have := (posIn_some hk).1
+    have : i ≠ k := fun h => hi (h ▸ this)
+    simp [this]
+
+theorem Cx.one_mul' (z : Cx K) : (ofK 1 : Cx K) * z = z := by apply Cx.ext' <;> simp
+theorem Cx.mul_one' (z : Cx K) : z * (ofK 1 : Cx K) = z := by apply Cx.ext' <;> simp
+theorem Cx.zero_mul' (z : Cx K) : (0 : Cx K) * z = 0 := by apply Cx.ext' <;> simp
+theorem Cx.mul_zero' (z : Cx K) : z * (0 : Cx K) = 0 := by apply Cx.ext' <;> simp
+theorem Cx.conj_one : conj (ofK 1 : Cx K) = ofK 1 := by apply Cx.ext' <;> simp
+theorem Cx.conj_zero : conj (0 : Cx K) = 0 := by apply Cx.ext' <;> simp
+
+/-- **`passive(T, modes)` is local**: whatever `T` is placed on the listed modes (any order), every
+`nmat`, `mmat`, `mean` entry of the other modes is unchanged -/
+theorem applyU_local (st : GS K) (modes : List Nat) (T : Nat → Nat → Cx K) :
+    ∀ i j, i < st.n → j < st.n → ¬ i ∈ modes → ¬ j ∈ modes →
+      (applyU st (expandT modes T)).N i j = st.N i j ∧ (applyU st (expandT modes T)).M i j = st.M i j ∧
+      (applyU st (expandT modes T)).mean i = st.mean i := by
+  intro i j hi hj hi' hj'
+  refine ⟨?_, ?_, ?_⟩
+  · simp only [applyU]
+    rw [csum_single _ hi]
+    · rw [csum_single _ hj]
+      · rw [expandT_spectator modes T hi', expandT_spectator modes T hj']
+        simp [Cx.conj_one, Cx.one_mul', Cx.mul_one']
+      · intro l _ hne
+        rw [expandT_spectator modes T hj' l]; simp [Ne.symm hne, Cx.mul_zero']
+    · intro k _ hne
+      apply csum_zero
+      intro l _
+      rw [expandT_spectator modes T hi' k]; simp [Ne.symm hne, Cx.conj_zero, Cx.zero_mul']
+  · simp only [applyU]
+    rw [csum_single _ hi]
+    · rw [csum_single _ hj]
+      · rw [expandT_spectator modes T hi', expandT_spectator modes T hj']
+        simp [Cx.one_mul', Cx.mul_one']
+      · intro l _ hne
+        rw [expandT_spectator modes T hj' l]; simp [Ne.symm hne, Cx.mul_zero']
+    · intro k _ hne
+      apply csum_zero
+      intro l _
+      rw [expandT_spectator modes T hi' k]; simp [Ne.symm hne, Cx.zero_mul']
+  · simp only [applyU]
+    rw [csum_single _ hi]
+    · rw [expandT_spectator modes T hi']; simp [Cx.one_mul']
+    · intro k _ hne
+      rw [expandT_spectator modes T hi' k]; simp [Ne.symm hne, Cx.zero_mul']
 
 end SFV.Gauss
